@@ -106,8 +106,11 @@ func JsonIntoEEBUSJson(data []byte) (string, error) {
 	var json = string(b)
 
 	// we are lazy: fix the first item being put into an array
-	json = strings.TrimPrefix(json, "[")
-	json = strings.TrimSuffix(json, "]")
+	// an empty object has no items and stays an empty array
+	if json != "[]" {
+		json = strings.TrimPrefix(json, "[")
+		json = strings.TrimSuffix(json, "]")
+	}
 
 	return json, nil
 }
